@@ -7,6 +7,15 @@ def T(qcases, tcases, qbudget=240, tbudget=1500, workers=16):
             "thorough": dict(cases=tcases, budget_s=tbudget, workers=workers)}
 
 PROPS = {
+    "C07": dict(sources=["props/C07.cpp", "vsched.cpp"], jls=True, sched=True, mrb_size=1024, tiers=T(400, 8000),
+                assumptions=["same scheduler and scheduling points as C06; liveness is decided as: no deadlock (no runnable thread, no sleeper) and completion within 3e6 scheduling steps under the generated schedule followed by run-to-completion",
+                             "a flush that returns TIMED_OUT asserts nothing; 'had returned before the flush call started' is judged on the global trace order of the scheduler",
+                             "a livelock that depends on real time passing differently from the virtual clock is out of reach"]),
+    "C06": dict(sources=["props/C06.cpp", "vsched.cpp"], jls=True, sched=True, mrb_size=1024, tiers=T(400, 8000),
+                assumptions=["scheduling points: every pthread operation, sleep and clock read of backend_posix.c, every queue operation, the middle of every memcpy and every synchronous-writer call in threaded_writer.c, every backend I/O call; code between two points runs atomically",
+                             "queue capacity 1024 bytes through the JLS_VERIF_MRB_BUFFER_SIZE hook",
+                             "exhaustive bounded-preemption enumeration is not implemented in this revision: schedules are sampled (choice vectors with shrinking)",
+                             "unsynchronised accesses that are neither queue operations nor writer calls are invisible to this check"]),
     "C10": dict(sources=["props/C10.cpp"], jls=True, mrb_size=1 << 16, tiers=T(600, 12000, workers=12), fuzz=dict(workers=4, quick=40, thorough=900, max_len=2048),
                 assumptions=["instance pointers are live, data pointers valid, strings NUL-terminated, caller buffers exactly the documented size (1 byte where the call must be rejected)",
                              "a reader/raw handle/copy is never opened on the file an open writer is writing (jls_rd_open would repair it underneath the writer)",
@@ -81,6 +90,16 @@ PROPS = {
 HOOK_COMMITS = ["6203c3e4032b5e35344eee56bc8020982a6abdeb"]
 
 MANIFEST_TEXT = {
+    "C07": dict(
+        engine="rapidcheck + deterministic scheduler",
+        technique="schedule exploration with virtual time on the deterministic scheduler; history invariants over the execution trace (submission returns, applied calls, backend fsync, thread activity) + deadlock/no-progress detection",
+        level_text="Programs with flushes throughout and one or two application threads run under generated schedules in which the queue is often full and the 5 s send / 20 s flush timeouts fire in virtual time. A successful flush must be preceded by the application of every data call that had returned before it started and by a backend fsync after the last of them; close must leave every accepted call applied, the writer thread finished and a well-formed closed file; the scheduler aborts with a verdict on deadlock or when 3e6 steps do not finish the program.",
+        level_note="Trusted: vsched.cpp; the trace order of a serialised execution. Sampling of schedules."),
+    "C06": dict(
+        engine="rapidcheck + deterministic scheduler",
+        technique="schedule exploration on a deterministic scheduler with virtual time (interposed pthread/sleep/clock, queue, memcpy and I/O points) x generated programs; differential against the synchronous writer; history invariants over the execution trace",
+        level_text="Library threads and application threads are real pthreads serialised by a baton; the generated choice vector decides who runs at every lock/unlock/wait/signal/sleep, queue operation, half-copied message and backend I/O call, time jumps let sleepers overtake and per-I/O latencies of 6 s/25 s fire the 5 s send and 20 s flush timeouts in virtual time. Checked per run: applied calls == accepted submissions per producer in order (nothing lost, duplicated, reordered; rejected calls leave no trace), file content == synchronous reference (dump + decoder), queue operations only under the queue lock, writer calls only under the process lock, deadlock / no-progress detection.",
+        level_note="Trusted: sched.cpp (about 400 lines), the synchronous writer as reference (C01-C05). Sampling of schedules, not enumeration."),
     "C10": dict(
         engine="rapidcheck + libFuzzer",
         technique="structure-aware API-sequence fuzzing: one decoder from a tape of choices to call sequences over the whole public surface, driven by rapidcheck (shrinking) and by libFuzzer (coverage guidance), ASan/LSan + return-code oracle inside the target",
